@@ -469,7 +469,7 @@ fn main() {
     let mut stats = BTreeMap::new();
     let mut distinct = BTreeSet::new();
     let mut samples = Vec::new();
-    let mut impl_failures = Vec::new();
+    let mut impl_failures: Vec<Value> = Vec::new();
     let mut rng = Rng::new(args.seed);
     for run in 0..n_runs {
         let seed = rng.next();
